@@ -634,3 +634,307 @@ func execCopies(c copiesCase, _ core.Source) (res core.Result) {
 	res.NonTrivial = c.Size > 0
 	return
 }
+
+// ---- many callers at once
+
+// The class functions are pure, so any number of goroutines may call them at once, each on operands of its own
+// (a server that merges or extracts per request).  Whatever a class keeps to save work -- buffers, scratch
+// indexes -- must be enough for all of them: every call returns, with the result the law gives.
+type manyCallersCase struct {
+	Fn      string `json:"fn"` // Extract Merge Concatenate
+	Callers int    `json:"callers"`
+	Rounds  int    `json:"rounds"`
+}
+
+func execManyCallers(c manyCallersCase, _ core.Source) (res core.Result) {
+	n := lib.Notation()
+	C := col.Catalog[int, int](n)
+	L := col.List[int](n)
+	problems := make([]string, c.Callers)
+	start := make(chan struct{})
+	done := make(chan int, c.Callers)
+	for w := 0; w < c.Callers; w++ {
+		w := w
+		go func() {
+			defer func() {
+				if e := recover(); e != nil {
+					problems[w] = "panicked: " + lib.Short(e)
+				}
+				done <- w
+			}()
+			<-start
+			for round := 0; round < c.Rounds; round++ {
+				a, b := C.Make(), C.Make()
+				for k := 0; k < 6; k++ {
+					a.SetValue(k, w*100+k)
+					b.SetValue(k+3, -(w*100 + k))
+				}
+				switch c.Fn {
+				case "Extract":
+					got := C.Extract(a, L.MakeFromArray([]int{4, 9, 0, 4}))
+					if keys := got.GetKeys().AsArray(); !lib.EqInts(keys, []int{4, 0}) || got.GetValue(4) != w*100+4 {
+						problems[w] = fmt.Sprintf("Extract gave the keys %v", keys)
+					}
+				case "Merge":
+					got := C.Merge(a, b)
+					if keys := got.GetKeys().AsArray(); !lib.EqInts(keys, []int{0, 1, 2, 3, 4, 5, 6, 7, 8}) || got.GetValue(4) != -(w*100+1) || got.GetValue(1) != w*100+1 {
+						problems[w] = fmt.Sprintf("Merge gave the keys %v and %d under 4", keys, got.GetValue(4))
+					}
+				default:
+					got := L.Concatenate(L.MakeFromArray([]int{w, 1}), L.MakeFromArray([]int{2, w}))
+					if !lib.EqInts(got.AsArray(), []int{w, 1, 2, w}) {
+						problems[w] = fmt.Sprintf("Concatenate gave %v", got.AsArray())
+					}
+				}
+			}
+		}()
+	}
+	close(start)
+	returned := 0
+	timeout := time.After(30 * time.Second)
+	for returned < c.Callers {
+		select {
+		case <-done:
+			returned++
+		case <-timeout:
+			res.Violation = core.Violate("C16/many-callers/hang/"+c.Fn, "%d goroutines called %s at once, each on operands of its own, %d times: only %d of them had returned after 30 s", c.Callers, c.Fn, c.Rounds, returned)
+			return
+		}
+	}
+	for w, p := range problems {
+		if p != "" {
+			res.Violation = core.Violate("C16/many-callers/"+c.Fn, "%d goroutines calling %s at once, each on operands of its own: caller %d: %s", c.Callers, c.Fn, w, p)
+			return
+		}
+	}
+	res.NonTrivial = true
+	res.Classes = append(res.Classes, "fn-"+c.Fn)
+	return
+}
+
+// ---- values that change between two sorts
+
+// A collection holds what it was given: a pointer to a record, a nested list.  Such a value may be changed
+// through the caller's own reference (a score is updated, a value appended to the inner list) and the collection
+// sorted again: the second sort orders what the values are now, whatever the first sort found.
+type resortCase struct {
+	Via   string `json:"via"`  // List Array Catalog
+	Elem  string `json:"elem"` // pointer list
+	Codes []int  `json:"codes"`
+	Twice bool   `json:"twice"` // the collection is sorted twice before the values change
+}
+
+func execResort(c resortCase, _ core.Source) (res core.Result) {
+	n := lib.Notation()
+	cells := make([]*int, len(c.Codes))
+	lists := make([]col.ListLike[int], len(c.Codes))
+	vals := make([]any, len(c.Codes))
+	for i, k := range c.Codes {
+		v := k
+		cells[i] = &v
+		lists[i] = col.List[int](n).MakeFromArray([]int{k, 5})
+		if c.Elem == "pointer" {
+			vals[i] = cells[i]
+		} else {
+			vals[i] = lists[i]
+		}
+	}
+	key := func(x any) int {
+		if p, ok := x.(*int); ok {
+			return *p
+		}
+		return x.(col.ListLike[int]).GetValue(1)
+	}
+	var view func() []any
+	var sortIt func()
+	switch c.Via {
+	case "List":
+		l := col.List[any](n).MakeFromArray(vals)
+		view, sortIt = l.AsArray, l.SortValues
+	case "Array":
+		a := col.Array[any](n).MakeFromArray(vals)
+		view, sortIt = a.AsArray, a.SortValues
+	default:
+		cat := col.Catalog[int, any](n).Make()
+		for i, v := range vals {
+			cat.SetValue(i, v)
+		}
+		view = func() []any {
+			var out []any
+			for _, a := range cat.AsArray() {
+				out = append(out, a.GetValue())
+			}
+			return out
+		}
+		sortIt = func() {
+			cat.SortValuesWithRanker(func(a, b col.AssociationLike[int, any]) age.Rank {
+				return age.Collator[any]().Make().RankValues(a.GetValue(), b.GetValue())
+			})
+		}
+	}
+	check := func(stage string) bool {
+		got := view()
+		keys := make([]int, len(got))
+		for i, x := range got {
+			keys[i] = key(x)
+		}
+		if len(got) != len(vals) || !sort.IntsAreSorted(keys) {
+			res.Violation = core.Violate("C09/resort/"+c.Via, "%s of %ss, %s: the values stand in the order %v", c.Via, c.Elem, stage, keys)
+			return false
+		}
+		return true
+	}
+	sortIt()
+	if c.Twice {
+		sortIt()
+	}
+	if !check("after SortValues") {
+		return
+	}
+	// every value changes through the caller's own reference: the order turns round
+	for i := range c.Codes {
+		*cells[i] = -*cells[i]
+		lists[i].SetValue(1, -lists[i].GetValue(1))
+	}
+	sortIt()
+	if !check("after the values were changed through the caller's references and the collection was sorted again") {
+		return
+	}
+	distinct := map[int]bool{}
+	for _, k := range c.Codes {
+		distinct[k] = true
+	}
+	res.NonTrivial = len(distinct) >= 2
+	res.Classes = append(res.Classes, "via-"+c.Via, "elem-"+c.Elem)
+	return
+}
+
+func genResort(s core.Source) resortCase {
+	c := resortCase{Via: core.Pick(s, []string{"List", "Array", "Catalog"}, "via"), Elem: core.Pick(s, []string{"pointer", "list"}, "elem"), Twice: s.Choose(2, "twice") == 1, Codes: []int{}}
+	nvals := s.Choose(9, "n")
+	distinct := s.Choose(2, "distinct") == 1
+	for i := 0; i < nvals; i++ {
+		k := 1 + s.Choose(20, "code")
+		if distinct {
+			k = 1 + (i*7+s.Choose(3, "code"))%23 + i*23 // no two values rank equal
+		}
+		c.Codes = append(c.Codes, k)
+	}
+	return c
+}
+
+// ---- element objects that are reused
+
+// The members of a set may be collections.  A caller may take such a member out of every set, change it, and put it
+// back or ask for it again: the sets and the set operations see what the object holds now.  One scratch object
+// goes through several rounds against a family of known members.
+type reusedCase struct {
+	Elem   string `json:"elem"`   // list set
+	Rounds []int  `json:"rounds"` // the content of the scratch object in each round (a bit mask over 1..3, plus 8 = also 7)
+	Op     string `json:"op"`
+}
+
+func execReused(c reusedCase, _ core.Source) (res core.Result) {
+	n := lib.Notation()
+	content := func(mask int) []int {
+		var out []int
+		for b := 0; b < 3; b++ {
+			if mask&(1<<b) != 0 {
+				out = append(out, b+1)
+			}
+		}
+		if mask&8 != 0 {
+			out = append(out, 7)
+		}
+		return out
+	}
+	type elem = col.Sequential[int]
+	mk := func(vals []int) elem {
+		if c.Elem == "list" {
+			return col.List[int](n).MakeFromArray(vals)
+		}
+		return col.Set[int](n).MakeFromArray(vals)
+	}
+	refill := func(e elem, vals []int) {
+		if l, ok := e.(col.ListLike[int]); ok {
+			l.RemoveAll()
+			l.AppendValues(col.Array[int](n).MakeFromArray(vals))
+		} else {
+			s := e.(col.SetLike[int])
+			s.RemoveAll()
+			for _, v := range vals {
+				s.AddValue(v)
+			}
+		}
+	}
+	S := col.Set[elem](n)
+	known := S.Make()
+	knownMasks := []int{1, 2, 4, 3}
+	for _, m := range knownMasks {
+		known.AddValue(mk(content(m)))
+	}
+	scratch := mk(nil)
+	candidates := S.Make()
+	for round, mask := range c.Rounds {
+		candidates.RemoveAll()
+		refill(scratch, content(mask))
+		candidates.AddValue(scratch)
+		candidates.AddValue(mk([]int{9}))
+		inKnown := false
+		for _, m := range knownMasks {
+			inKnown = inKnown || m == mask
+		}
+		var got col.SetLike[elem]
+		var want int
+		switch c.Op {
+		case "And":
+			got = S.And(candidates, known)
+			want = 0
+			if inKnown {
+				want = 1
+			}
+		case "Or":
+			got = S.Or(candidates, known)
+			want = len(knownMasks) + 2
+			if inKnown {
+				want--
+			}
+		case "Sans":
+			got = S.Sans(candidates, known)
+			want = 2
+			if inKnown {
+				want = 1
+			}
+		default:
+			got = S.Xor(candidates, known)
+			want = len(knownMasks) + 2
+			if inKnown {
+				want -= 2
+			}
+		}
+		show := func(s col.SetLike[elem]) string {
+			out := ""
+			for _, e := range s.AsArray() {
+				out += fmt.Sprint(e.AsArray())
+			}
+			return out
+		}
+		if got.GetSize() != want || known.ContainsValue(scratch) != inKnown || !candidates.ContainsValue(scratch) {
+			res.Violation = core.Violate("C15/reused-element/"+c.Op, "round %d of %v: a scratch %s now holding %v, in a set next to [9], against the known members [1] [2] [3] [1 2]: %s gave %s (%d members, expected %d); the known family says it contains the scratch object: %v",
+				round+1, c.Rounds, c.Elem, content(mask), c.Op, show(got), got.GetSize(), want, known.ContainsValue(scratch))
+			return
+		}
+	}
+	res.NonTrivial = len(c.Rounds) >= 2
+	res.Classes = append(res.Classes, "op-"+c.Op, "elem-"+c.Elem)
+	return
+}
+
+func genReused(s core.Source) reusedCase {
+	c := reusedCase{Elem: core.Pick(s, []string{"list", "set"}, "elem"), Op: core.Pick(s, algOps, "op"), Rounds: []int{}}
+	nr := 1 + s.Choose(3, "rounds")
+	for i := 0; i < nr; i++ {
+		c.Rounds = append(c.Rounds, []int{1, 2, 3, 9, 5, 0, 4}[s.Choose(7, "content")])
+	}
+	return c
+}
